@@ -335,6 +335,7 @@ class World(object):
 
         def onMqttConnectionMade(c=c):
             w.obs.append(('cb', 'onMqttConnectionMade', c.idx, None))
+            w._reenter('onMqttConnectionMade', c.addr, 1)
         onMqttConnectionMade._verif_rec = 'onMqttConnectionMade'
 
         if self.cfg.get('ondisc', True):
@@ -466,6 +467,7 @@ class World(object):
                 # optional: the application calls the API again from inside this callback (once per world)
                 if r.call_step < w.step:
                     w._reenter('ok:' + r.kind, r.addr, r.qos)
+                return 'application-callback-result'
 
             def err(f, r=r):
                 c = w.conns[r.conn]
@@ -632,6 +634,11 @@ class World(object):
     def ev_setbw(self, a, b, f=2):
         c = self.conn(a)
         self._api('setbw', c, dict(b=b, f=f), lambda r: c.proto.setBandwith(b, f))
+
+    def ev_appping(self, a):
+        """The application calls the public ping() helper itself."""
+        c = self.conn(a)
+        self._api('ping', c, {}, lambda r: c.proto.ping())
 
     def ev_call(self, a, name, args=(), kwargs=None):
         """Free-form API call (C20 / C14 probes)."""
